@@ -21,6 +21,7 @@ TEXT = {
  'C15': ('remove_not_in / remove_keeps_others on handler lists (a removed handler is in no list afterwards; the others keep their relative order); handler and event removal in the model follow world.rs; invocation logs after removals and id validity are compared with the implementation.', ''),
  'C16': ('add_*_idem: registering what is registered returns the existing id and the unchanged world (nothing delivered); sm_never_again / sm_all_keys_distinct for the four registries; ids returned, notification deliveries (logged by lifecycle-event handlers) and validity of every old id compared with the implementation.', ''),
  'C17': ('The property\'s list is evaluated directly on the implementation\'s hook snapshot after every top-level call (independent Python audit: locations, rows, sorted distinct component sets, by_components, cached transitions, listener tables, pending reservations, cursor) and the snapshot is compared field by field with the model state (L3).', ''),
+ 'C18': ('The marker-impl headers (ReadOnlyQuery impls and their bounds, Query for &mut C, gated Fetcher/Iter methods, ReceiverMut and get_mut bounds, World\'s !Send marker, conditional Send/Sync impls) are re-read from the source by a translator on every run into coq/gen/GateRules.v; over them: ro_sound (a query the source marks read-only never hands out a mutable reference, for every query and archetype), mut_needs_mutable, shared_access_is_gated, event_and_component_mutability_is_gated, thread_safety_is_gated. h_compile type-checks a generated family of forbidden programs and permitted twins against the current tree and compares each outcome with the model\'s prediction.', 'partial: rustc\'s trait solver and auto-trait rules are modelled only for these marker traits; translation_validation of the program family is the tie'),
  'C19': ('Par.v: for every outer split tree, every family of inner split trees and every order in which the leaves are scheduled, the items visited are exactly those of sequential iteration (concat of leaves = sequence; any leaf permutation is a permutation of the items; NoDup carries over); zip_eq splits keys and values in step. h_par compares parallel with sequential iteration of the same fetcher on generated populations for pools of 1..16 threads, in debug and release.', 'partial: rayon is modelled by arbitrary split trees and leaf schedules; real data races cannot be exhibited by the model'),
  'C20': ('flush_never_resets / flush_loop_resets_once on the world model for every handler behaviour; the arena-reset counter (hook) observed at every handler invocation is compared with the model.', 'partial: bumpalo\'s disjointness of blocks within one epoch is a modelled premise'),
 }
